@@ -51,7 +51,7 @@ Fixpoint c05_walk (lower : str -> str) (c : cfg) (u : upolicy) (outage : option 
 
 Definition judge (h : case) : N :=
   let lower := lower_tab (h_tab h) in
-  let mism := existsb (step_mismatch lower (h_cfg h) (h_pol h)) (h_steps h) in
+  let mism := existsb (case_step_mismatch h lower (h_cfg h) (h_pol h)) (h_steps h) in
   code mism (c05_walk lower (h_cfg h) (h_pol h) None (h_steps h)) 0.
 
 Definition any {A} (f : A -> bool) (l : list A) : N := if existsb f l then 1 else 0.
